@@ -658,7 +658,14 @@ def exec_op(world, rec, fault_at=None):
     ctx = Ctx(fa)
     out = {"st": "ok", "exc": None, "injected": False, "res": None, "kind": KIND[rec["op"]], "writer": None}
     try:
-        e = fn(world, rec, ctx)
+        if rec.get("werr"):
+            # environment fault: the interpreter's warning filter is escalated to "error" for the
+            # duration of this one operation (python -W error / a test runner's filterwarnings)
+            with warnings.catch_warnings():
+                warnings.simplefilter("error")
+                e = fn(world, rec, ctx)
+        else:
+            e = fn(world, rec, ctx)
         if e is not None:
             out["res"] = e.eid
     except SkipOp:
@@ -675,6 +682,7 @@ def exec_op(world, rec, fault_at=None):
     except Exception as ex:  # an operation-level exception is an outcome
         out["st"] = "exc"
         out["exc"] = type(ex).__name__
+        out["warning"] = isinstance(ex, Warning)
         out["msg"] = str(ex)[:120]
         ex = None
     out["writer"] = ctx.writer
